@@ -36,3 +36,118 @@ def final_construct_statements(provides_ports, requires_ports, encapsulee):
            [p.accessor_target + '.check_bindings();' for p in provides_ports.ports if p.dzn_port_itf.multiclient is None] + \
            [p.accessor_target + '.check_bindings();' for p in requires_ports.ports] + \
            [mv + '.dzn_meta.parent = parentComponentMeta;', mv + '.check_bindings();']
+
+
+# ------------------------------------------------------------------- C01 C02 C04, any number of events and parameters
+from dznpy.ast import FormalDirection
+from specs import ghost
+
+
+def param_text(fct, itf, f, refs):
+    """'<C++ type of the extern the parameter type resolves to>[&] <name>': out / inout parameters by reference when
+    the caller must see them (refs)"""
+    return ghost.extern_of(fct, f.type_name.value, itf.fqn).value.value + \
+        ('&' if refs and f.direction != FormalDirection.IN else '') + ' ' + f.name
+
+
+def signature_text(fct, itf, e, refs):
+    ps = [param_text(fct, itf, f, refs) for f in e.signature.formals.elements]
+    return '(' + ', '.join(ps) + ')' if ps else ''
+
+
+def call_args(e):
+    return ', '.join([f.name for f in e.signature.formals.elements])
+
+
+def captures(e):
+    """in-parameters are copied into the closure that is handed to the dispatcher"""
+    return ''.join([', ' + f.name for f in e.signature.formals.elements if f.direction == FormalDirection.IN])
+
+
+def handler_lines(events, direction, head, body):
+    """three lines per event of the given direction, in model order: '<head> {', the indented body, '};'"""
+    lines = []
+    for e in events:
+        if e.direction == direction:
+            lines.append(head(e) + ' {')
+            for b in body(e):
+                lines.append('    ' + b)
+            lines.append('};')
+    return text_or_none(lines)
+
+
+def blocking_in_events(port, facilities, encapsulee, fct):
+    """C02 (in-events of an MTS provides port): the boundary slot runs the wrapped component's same-named in-event of
+    the same-named port inside dzn::shell on the dispatcher and returns its result"""
+    itf = port.dzn_port_itf.interface
+    target = port.accessor_target + ('()' if port.dzn_port_itf.multiclient is not None else '')
+    return handler_lines(
+        itf.events.elements, EventDirection.IN,
+        lambda e: target + '.in.' + e.name + ' = [&]' + signature_text(fct, itf, e, True),
+        lambda e: ['return dzn::shell(' + facilities.dispatcher.name + ', [&' + captures(e) + '] { return ' +
+                   encapsulee.member_var.name + '.' + port.name + '.in.' + e.name + '(' + call_args(e) + '); });'])
+
+
+def posted_out_events(port, facilities, encapsulee, fct):
+    """C02 (out-events of an MTS requires port): posted on the dispatcher, the caller continues"""
+    itf = port.dzn_port_itf.interface
+    return handler_lines(
+        itf.events.elements, EventDirection.OUT,
+        lambda e: port.accessor_target + '.out.' + e.name + ' = [&]' + signature_text(fct, itf, e, False),
+        lambda e: ['return ' + facilities.dispatcher.name + '([&' + captures(e) + '] { return ' +
+                   encapsulee.member_var.name + '.' + port.name + '.out.' + e.name + '(' + call_args(e) + '); });'])
+
+
+def multiclient_out_events(port, fct):
+    """C04: an out-event of the wrapped component goes to the client that currently holds the claim, if any"""
+    itf = port.dzn_port_itf.interface
+    return handler_lines(
+        itf.events.elements, EventDirection.OUT,
+        lambda e: port.accessor_target + '().out.' + e.name + ' = [&]' + signature_text(fct, itf, e, False),
+        lambda e: ['auto lockAndData = ' + port.accessor_target + '.CurrentClient();',
+                   'if (lockAndData->has_value()) lockAndData->value().get().dznPort.out.' + e.name + '(' +
+                   call_args(e) + ');'])
+
+
+# ------------------------------------------------------------------------------ C04: InitializePort<Port>(identifier)
+def claim_lines(port, multiclient, fct):
+    """the claim in-event of a client port: forwarded to the arbitered port; the client is selected exactly when the
+    reply is the configured granting reply; the reply is returned"""
+    itf = port.dzn_port_itf.interface
+    e = multiclient.claim_event
+    return ['port.in.' + e.name + ' = [&, identifier]' + signature_text(fct, itf, e, True) + ' {',
+            '    const auto r = ' + port.accessor_target + '.Arbitered().in.' + e.name + '(' + call_args(e) + ');',
+            '    if (r == ::' + '::'.join(multiclient.claim_granting_reply.items) + ') ' + port.accessor_target +
+            '.Select(identifier);',
+            '    return r;',
+            '};']
+
+
+def release_lines(port, multiclient, fct):
+    """the release in-event of a client port: forwarded to the arbitered port, then the client is deselected"""
+    itf = port.dzn_port_itf.interface
+    e = multiclient.release_event
+    return ['port.in.' + e.name + ' = [&, identifier]' + signature_text(fct, itf, e, True) + ' {',
+            '    ' + port.accessor_target + '.Arbitered().in.' + e.name + '(' + call_args(e) + ');',
+            '    ' + port.accessor_target + '.Deselect(identifier);',
+            '};']
+
+
+def initialize_port_lines(port, support_files_ns, fct):
+    """C04: a fresh client port whose in-events all go to the arbitered port - claim and release through their
+    handlers, every other in-event by reference to the arbitered port's same-named in-event"""
+    dzn = port.dzn_port_itf
+    mc = dzn.multiclient
+    cap = port.name[0].upper() + port.name[1:]
+    head = ['auto port(::' + '::'.join(support_files_ns.items + ['CreatePort']) + '<::' +
+            '::'.join(dzn.interface.fqn.items) + '>("' + port.name + '", "arbiter' + cap + '"));', '']
+    handlers = []
+    for e in dzn.interface.events.elements:
+        if e.direction == EventDirection.IN:
+            if e == mc.claim_event:
+                handlers.extend(claim_lines(port, mc, fct))
+            elif e == mc.release_event:
+                handlers.extend(release_lines(port, mc, fct))
+            else:
+                handlers.append('port.in.' + e.name + ' = std::ref(' + port.accessor_target + '().in.' + e.name + ');')
+    return head + (handlers + [''] if handlers else []) + ['return port;']
